@@ -30,22 +30,24 @@ pub enum Ev {
     Grow(u8),
     Compact(u8),
     Alloc(u8),
+    /// the fill level of list `id` was consulted
+    Fill(u8),
 }
 
 pub struct GhostLog {
-    pub ev: [Option<Ev>; 16],
+    pub ev: [Option<Ev>; 24],
     pub n: usize,
 }
 impl GhostLog {
     pub fn push(&mut self, e: Ev) {
-        if self.n < 16 {
+        if self.n < 24 {
             self.ev[self.n] = Some(e);
         }
         self.n += 1;
     }
     pub fn pos(&self, e: Ev) -> Option<usize> {
         let mut i = 0;
-        while i < 16 && i < self.n {
+        while i < 24 && i < self.n {
             if self.ev[i] == Some(e) {
                 return Some(i);
             }
@@ -56,7 +58,7 @@ impl GhostLog {
     pub fn count(&self, e: Ev) -> usize {
         let mut i = 0;
         let mut c = 0;
-        while i < 16 && i < self.n {
+        while i < 24 && i < self.n {
             if self.ev[i] == Some(e) {
                 c += 1;
             }
@@ -65,7 +67,7 @@ impl GhostLog {
         c
     }
 }
-pub static mut LOG: GhostLog = GhostLog { ev: [None; 16], n: 0 };
+pub static mut LOG: GhostLog = GhostLog { ev: [None; 24], n: 0 };
 pub static mut FILL: [f64; 8] = [0.0; 8];
 pub static mut FILL_I: usize = 0;
 // what the marker was given
@@ -100,6 +102,9 @@ pub struct FreeList<T> {
 impl<T> FreeList<T> {
     pub fn percent_full(&self) -> f64 {
         unsafe {
+            if LOG.count(Ev::Fill(self.id)) == 0 {
+                LOG.push(Ev::Fill(self.id));
+            }
             let v = FILL[FILL_I % 8];
             FILL_I += 1;
             v
